@@ -1,11 +1,14 @@
 package dhcp4_spoofer
 
 import (
+	"bytes"
 	"fmt"
+	"hash/crc32"
 	"io/ioutil"
 	"net"
 	"net/netip"
 	"os"
+	"strconv"
 	"time"
 
 	"github.com/irai/packet"
@@ -155,7 +158,22 @@ func (handler *Handler) loadConfig(fname string) (net1 *dhcpSubnet, net2 *dhcpSu
 	return handler.loadByteArray(source)
 }
 
+// crcLabel starts the last line of the lease file: the CRC-32 of everything before it, in hex.
+const crcLabel = "crc: "
+
 func (handler *Handler) loadByteArray(source []byte) (net1 *dhcpSubnet, net2 *dhcpSubnet, t map[string]*Lease, err error) {
+	// a damaged file still parses as YAML more often than not (a digit changed in an address, a line lost from a
+	// client id): only a file whose checksum matches is used
+	i := bytes.LastIndex(source, []byte("\n"+crcLabel))
+	if i < 0 {
+		return nil, nil, nil, fmt.Errorf("lease file has no checksum")
+	}
+	sum, err := strconv.ParseUint(string(bytes.TrimSpace(source[i+1+len(crcLabel):])), 16, 32)
+	if err != nil || uint32(sum) != crc32.ChecksumIEEE(source[:i+1]) {
+		return nil, nil, nil, fmt.Errorf("lease file checksum does not match")
+	}
+	source = source[:i+1]
+
 	table := struct {
 		Net1   *SubnetConfig
 		Net2   *SubnetConfig
@@ -276,6 +294,8 @@ func (h *Handler) saveConfig(fname string) (err error) {
 		fmt.Printf("error cannot marshall dhcp file: %s error %s", fname, err)
 		return err
 	}
+
+	stream = append(stream, []byte(fmt.Sprintf("%s%08x\n", crcLabel, crc32.ChecksumIEEE(stream)))...)
 
 	err = ioutil.WriteFile(fname, stream, os.ModePerm)
 	if err != nil {
